@@ -7,8 +7,8 @@ CONSTANTS
   MaxCrashes = 0
   FlagSet = {"S", "T", "F"}
   AppendFlags = {{}, {"S"}, {"T"}}
-  Dev = {"CopyMetadataOnly", "MoveKeepsSourceRecord", "MkdirNotAtomic", "TempInSystemTmp"}
-  Tol = {"CopyMetadataOnly", "MoveKeepsSourceRecord", "MkdirNotAtomic", "TempInSystemTmp"}
+  Dev = {"MoveKeepsSourceRecord"}
+  Tol = {"MoveKeepsSourceRecord"}
   OtherFs = FALSE
   Virgin = FALSE
   Existing = {}
